@@ -770,3 +770,151 @@ Proof. destruct d; split; reflexivity. Qed.
 Lemma maybe_with_defaults_no_mutation r d :
   snd (fst (fst (maybe_with_defaults r d))) = r /\ snd (fst (maybe_with_defaults r d)) = d.
 Proof. destruct r, d; split; reflexivity. Qed.
+
+(* ---------------------------------------------------------------- keyword dictionaries: dict, from_dict, with_defaults *)
+(* the value of field f seen as a keyword value *)
+Definition getf (f : fld) (r : res) : uval :=
+  match f with
+  | Fcpus => match cpus r with Some z => UInt z | None => UNone end
+  | Fcpn => match cpus_per_node r with Some z => UInt z | None => UNone end
+  | Fnodes => match nodes r with Some z => UInt z | None => UNone end
+  | Fmemory => match memory r with Some x => UStr x | None => UNone end
+  | Fgpus => match gpus r with Some z => UInt z | None => UNone end
+  | Ftime => match time r with Some x => UStr x | None => UNone end
+  | Fpartition => match partition r with Some x => UStr x | None => UNone end
+  | Fextra => UDict (extra_args r)
+  | Fmode => UStr (mode r)
+  end.
+
+Lemma res_ext a b : (forall f, getf f a = getf f b) -> a = b.
+Proof.
+  intros H. destruct a as [c cn n m g t p e md], b as [c' cn' n' m' g' t' p' e' md'].
+  pose proof (H Fcpus) as H1. pose proof (H Fcpn) as H2. pose proof (H Fnodes) as H3.
+  pose proof (H Fmemory) as H4. pose proof (H Fgpus) as H5. pose proof (H Ftime) as H6.
+  pose proof (H Fpartition) as H7. pose proof (H Fextra) as H8. pose proof (H Fmode) as H9.
+  cbn in *.
+  assert (c = c') by (destruct c, c'; congruence). assert (cn = cn') by (destruct cn, cn'; congruence).
+  assert (n = n') by (destruct n, n'; congruence). assert (m = m') by (destruct m, m'; congruence).
+  assert (g = g') by (destruct g, g'; congruence). assert (t = t') by (destruct t, t'; congruence).
+  assert (p = p') by (destruct p, p'; congruence). congruence.
+Qed.
+
+Lemma set_field_get f v r r' : set_field f v r = Some r' ->
+  getf f r' = v /\ forall f', f' <> f -> getf f' r' = getf f' r.
+Proof.
+  destruct r as [c cn n m g t p e md].
+  destruct f, v; cbn; intros H; inversion H; subst; (split; [reflexivity|]);
+    intros f' Hf; destruct f'; try reflexivity; contradiction.
+Qed.
+
+Lemma fld_key_inj a b : str_eqb (fld_key a) (fld_key b) = true -> a = b.
+Proof. destruct a, b; intros H; try reflexivity; vm_compute in H; discriminate. Qed.
+
+Lemma field_of_key_fld f : field_of_key (fld_key f) = Some f.
+Proof. destruct f; reflexivity. Qed.
+
+Lemma field_of_key_inv k f : field_of_key k = Some f -> k = fld_key f.
+Proof.
+  unfold field_of_key. intros H. apply find_some in H as [_ H]. now apply str_eqb_eq in H.
+Qed.
+
+(* the last binding of field f in a keyword list *)
+Fixpoint ulook (d : udict) (f : fld) : option uval :=
+  match d with
+  | [] => None
+  | (k, v) :: t =>
+      match ulook t f with
+      | Some x => Some x
+      | None => if str_eqb k (fld_key f) then Some v else None
+      end
+  end.
+
+Lemma assign_get d : forall r r', assign d r = Ok r' ->
+  forall f, getf f r' = match ulook d f with Some v => v | None => getf f r end.
+Proof.
+  induction d as [|[k v] t IH]; intros r r' H f; cbn [assign] in H.
+  - inversion H; reflexivity.
+  - destruct (field_of_key k) as [f0|] eqn:Ek; [|discriminate].
+    apply field_of_key_inv in Ek. subst k.
+    destruct (set_field f0 v r) as [r1|] eqn:Es; [|discriminate].
+    apply set_field_get in Es as [Eg Eo].
+    rewrite (IH r1 r' H f). cbn [ulook]. destruct (ulook t f) as [x|]; [reflexivity|].
+    destruct (str_eqb (fld_key f0) (fld_key f)) eqn:E.
+    + apply fld_key_inj in E. subst f0. exact Eg.
+    + apply Eo. intros ->. now rewrite str_eqb_refl in E.
+Qed.
+
+Definition typed (f : fld) (v : uval) : Prop := forall r, exists r', set_field f v r = Some r'.
+Definition entries_typed (d : udict) : Prop :=
+  forall k v, In (k, v) d -> exists f, k = fld_key f /\ typed f v.
+
+Lemma assign_ok d : entries_typed d -> forall r, exists r', assign d r = Ok r'.
+Proof.
+  induction d as [|[k v] t IH]; intros H r; cbn [assign].
+  - eauto.
+  - destruct (H k v (or_introl eq_refl)) as (f & -> & Ht). rewrite field_of_key_fld.
+    destruct (Ht r) as [r1 ->]. apply IH. intros k' v' Hin. apply H. now right.
+Qed.
+
+Lemma keys_known d : entries_typed d -> forallb (fun kv => is_some (field_of_key (fst kv))) d = true.
+Proof.
+  intros H. apply forallb_forall. intros [k v] Hin. destruct (H k v Hin) as (f & -> & _).
+  cbn [fst]. now rewrite field_of_key_fld.
+Qed.
+
+Lemma typed_getf f r : typed f (getf f r).
+Proof.
+  intros [c cn n m g t p e md]. destruct r as [c' cn' n' m' g' t' p' e' md'].
+  destruct f; cbn; try (eexists; reflexivity).
+  - destruct c'; eexists; reflexivity.
+  - destruct cn'; eexists; reflexivity.
+  - destruct n'; eexists; reflexivity.
+  - destruct m'; eexists; reflexivity.
+  - destruct g'; eexists; reflexivity.
+  - destruct t'; eexists; reflexivity.
+  - destruct p'; eexists; reflexivity.
+Qed.
+
+Lemma in_oz k o x : In x (oz k o) -> exists z, o = Some z /\ x = (k, UInt z).
+Proof. destruct o; cbn; [intros [<-|[]]; eauto|intros []]. Qed.
+Lemma in_os k o x : In x (os k o) -> exists z, o = Some z /\ x = (k, UStr z).
+Proof. destruct o; cbn; [intros [<-|[]]; eauto|intros []]. Qed.
+
+Lemma in_to_dict k v r : In (k, v) (to_dict r) -> exists f, k = fld_key f /\ v = getf f r.
+Proof.
+  unfold to_dict. rewrite !in_app_iff.
+  intros [H|[H|[H|[H|[H|[H|[H|H]]]]]]].
+  - apply in_oz in H as (z & E & H). inversion H. exists Fcpus. cbn. now rewrite E.
+  - apply in_oz in H as (z & E & H). inversion H. exists Fcpn. cbn. now rewrite E.
+  - apply in_oz in H as (z & E & H). inversion H. exists Fnodes. cbn. now rewrite E.
+  - apply in_os in H as (z & E & H). inversion H. exists Fmemory. cbn. now rewrite E.
+  - apply in_oz in H as (z & E & H). inversion H. exists Fgpus. cbn. now rewrite E.
+  - apply in_os in H as (z & E & H). inversion H. exists Ftime. cbn. now rewrite E.
+  - apply in_os in H as (z & E & H). inversion H. exists Fpartition. cbn. now rewrite E.
+  - destruct H as [H|[H|[]]]; inversion H; [exists Fextra|exists Fmode]; split; reflexivity.
+Qed.
+
+Lemma to_dict_typed r : entries_typed (to_dict r).
+Proof.
+  intros k v H. apply in_to_dict in H as (f & -> & ->). exists f. split; [reflexivity|apply typed_getf].
+Qed.
+
+Lemma ulook_to_dict r f :
+  ulook (to_dict r) f = match getf f r with UNone => None | v => Some v end.
+Proof.
+  destruct r as [c cn n m g t p e md].
+  destruct f; destruct c, cn, n, m, g, t, p; vm_compute; reflexivity.
+Qed.
+
+(* Resources.from_dict(r.dict()) rebuilds r *)
+Lemma dict_roundtrip r : valid_res r -> from_dict (to_dict r) = Ok r.
+Proof.
+  intros Hv. unfold from_dict, construct. rewrite (keys_known _ (to_dict_typed r)).
+  destruct (assign_ok _ (to_dict_typed r) default_res) as [r' E]. rewrite E. cbn [bind].
+  assert (r' = r).
+  { apply res_ext. intros f. rewrite (assign_get _ _ _ E f), ulook_to_dict.
+    destruct r as [c cn n m g t p e md].
+    destruct f; cbn;
+      [destruct c|destruct cn|destruct n|destruct m|destruct g|destruct t|destruct p| |]; reflexivity. }
+  subst r'. now apply post_init_valid.
+Qed.
